@@ -12,7 +12,7 @@ Import ListNotations.
 From BB Require Import BN Brute SpaceFacts TrapFacts PercolateFacts AttractorFacts Diagram Invariants Checks Filter
   Strict PetriNet Control Meta FilterFacts PetriNetFacts TrappistFacts DiagramStruct DiagramSem1 DiagramCache
   DiagramDepth DiagramComplete Termination ControlFacts MetaFacts Candidates StrictFacts MinExpandFacts CandidatesFacts SymbolicTest SymbolicTestFacts Signed ReductionFacts ControlFacts2 Main Blocks BlocksFacts ObsFacts OwnerFacts CandidatesTerm
-  PartialOwner BlockMath BlockComplete ASeeds ASeedsFacts LogChecks SkipRule SkipRuleFacts Names NamesFacts Perm PermFacts SCC SCCFacts SCCStruct ControlFacts3 SCCTerm FilterSym.
+  PartialOwner BlockMath BlockComplete ASeeds ASeedsFacts LogChecks SkipRule SkipRuleFacts Names NamesFacts Perm PermFacts SCC SCCFacts SCCStruct ControlFacts3 SCCTerm FilterSym Main2 StrategyFacts ControlFacts4.
 
 (* forcing, allowed variables only, within the size bound *)
 Theorem C07_find_drivers_sound : forall (N : net) (ts : list (option bool)) (all_strategy : bool) (assume : list (option bool)) (maxd : option nat) (forbidden : list nat) (drv : space), length ts = nvars N -> length assume = nvars N -> In drv (find_drivers N ts all_strategy assume maxd forbidden) -> length drv = nvars N /\ forces_ldoi N drv assume ts = true /\ (forall v : nat, In v (dom drv) -> ~ In v forbidden) /\ length (dom drv) <= match maxd with | Some k => k | None => length (vars_fixed (free_of ts assume)) end /\ (all_strategy = false -> forall (v : nat) (b : bool), nth v drv None = Some b -> nth v (free_of ts assume) None = Some b).
@@ -41,6 +41,18 @@ Proof. exact target_expansion_post. Qed.
 Theorem C07_reaches_lava_spec : forall (N : net) (d : sd) (target : space) (x : nat), SWF N d -> EdgeStrict d -> x < size d -> reaches_lava d target x = true <-> lava_below d target x.
 Proof. exact reaches_lava_spec. Qed.
 
+(* skip_feedforward_successions: the filter only removes successions *)
+Theorem C07_skip_feedforward_only_removes : forall (succs : list (list space)) (s : list space), In s (ff_filter succs) -> In s succs.
+Proof. exact ff_filter_incl. Qed.
+
+(* every removed succession is subsumed by a kept one with a weaker signature *)
+Theorem C07_skip_feedforward_covers : forall (succs : list (list (list (option bool)))) (s : list space), (forall x : list (list (option bool)), In x succs -> forall m : list (option bool), In m x -> length m = length (signature s)) -> In s succs -> exists k : list space, In k (ff_filter succs) /\ subspace (signature s) (signature k) = true.
+Proof. exact ff_filter_covers. Qed.
+
+(* kept signatures are pairwise incomparable *)
+Theorem C07_skip_feedforward_antichain : forall (succs : list (list (list (option bool)))) (a b : list space), (forall x : list (list (option bool)), In x succs -> forall (m : list (option bool)) (y : list (list (option bool))), In m x -> In y succs -> forall m' : list (option bool), In m' y -> length m = length m') -> In a (ff_filter succs) -> In b (ff_filter succs) -> subspace (signature a) (signature b) = true -> signature a = signature b.
+Proof. exact ff_filter_antichain. Qed.
+
 Print Assumptions C07_find_drivers_sound.
 Print Assumptions C07_find_drivers_complete.
 Print Assumptions C07_find_drivers_minimal.
@@ -49,3 +61,6 @@ Print Assumptions C07_successions_spec.
 Print Assumptions C07_successions_nodup.
 Print Assumptions C07_target_expansion_post.
 Print Assumptions C07_reaches_lava_spec.
+Print Assumptions C07_skip_feedforward_only_removes.
+Print Assumptions C07_skip_feedforward_covers.
+Print Assumptions C07_skip_feedforward_antichain.
